@@ -269,7 +269,8 @@ def _norm_op(op):
 
 
 def _job(args):
-    rows, nbind, do_json = args
+    rows, nbind, do_json = args[:3]
+    all_positions = len(args) > 3 and args[3]
     S()
     binds = bindings()
     out = []
@@ -283,7 +284,8 @@ def _job(args):
             n += 1
             # persist-and-continue: reload before the last operation and
             # (when different) in the middle of the history
-            for k in sorted({len(hist) - 1, len(hist) // 2} - {-1}):
+            for k in (range(len(hist)) if all_positions else
+                      sorted({len(hist) - 1, len(hist) // 2} - {-1})):
                 if not hist:
                     break
                 b2, _ = replay_history(hist, cfgm, eff, last, binds[bi],
@@ -434,7 +436,7 @@ def run(tier, seed, rep):
     chunks = [rows[i::lib.NCPU * 4] for i in range(lib.NCPU * 4)]
     with mp.Pool(lib.NCPU) as pool:
         for n, out in pool.imap_unordered(
-                _job, [(ch, nb, True) for ch in chunks if ch]):
+                _job, [(ch, nb, True, not quick) for ch in chunks if ch]):
             total += n
             report(rep, out)
             nviol += len(out)
@@ -450,7 +452,7 @@ def run(tier, seed, rep):
     with mp.Pool(lib.NCPU) as pool:
         chunks = [sim_rows[i::lib.NCPU] for i in range(lib.NCPU)]
         for n, out in pool.imap_unordered(
-                _job, [(ch, nb, True) for ch in chunks if ch]):
+                _job, [(ch, nb, True, not quick) for ch in chunks if ch]):
             total += n
             report(rep, out)
 
